@@ -10,8 +10,10 @@ def one(mut):
     name, prop, rel, old, new = mut
     d = os.path.join(BASE, name); shutil.rmtree(d, ignore_errors=True); shutil.copytree("/repo/src", d)
     p = os.path.join(d, "mdpax", rel); s = open(p).read()
-    if s.count(old) < 1: return name, prop, "PATCH-DOES-NOT-APPLY", 0
-    open(p, "w").write(s.replace(old, new, 1))
+    for o, n in (old if isinstance(old, list) else [(old, new)]):
+        if s.count(o) < 1: return name, prop, "PATCH-DOES-NOT-APPLY", 0
+        s = s.replace(o, n, 1)
+    open(p, "w").write(s)
     env = dict(os.environ, MDPSIM_REPO_SRC=d, MDPSIM_WORKERS="5", MDPSIM_OUT=d + "-out")
     t = time.time()
     r = subprocess.run(["timeout", "900", "/venv/bin/python", "-m", "mdpsim.check", "--property", prop, "--tier", "quick", "--runs", os.environ.get("MUT_RUNS", "150"), "--no-shrink"], cwd="/verif", env=env, capture_output=True, text=True)
